@@ -37,13 +37,17 @@ Definition MAX_Q : Z := 971%Z.
 Definition P52 : N := 2 ^ 52.
 Definition P53 : N := 2 ^ 53.
 
+(* v / 2^q as a fraction A / B of naturals *)
+Definition scaled_pair (v : rat) (q : Z) : N * N :=
+  let '(n, d) := v in
+  match q with Zneg p => (n * 2 ^ Npos p, d) | _ => (n, d * 2 ^ Z.to_N q) end.
 (* floor (v / 2^q) and whether the remainder is below / equal / above one half *)
 Definition scaled (v : rat) (q : Z) : N * comparison :=
-  let '(n, d) := v in
-  let '(n', d') := match q with Zneg p => (n * 2 ^ Npos p, d) | _ => (n, d * 2 ^ Z.to_N q) end in
-  let fl := n' / d' in
-  let rem2 := 2 * (n' - fl * d') in
-  (fl, rem2 ?= d').
+  let '(A, B) := scaled_pair v q in
+  let fl := A / B in
+  (fl, 2 * (A - fl * B) ?= B).
+(* round half to even *)
+Definition round_up (fl : N) (c : comparison) : bool := match c with Gt => true | Eq => N.odd fl | Lt => false end.
 
 Definition round64 (m : N) (e : Z) : option (N * Z) :=
   if m =? 0 then Some (0, MIN_Q) else
@@ -55,8 +59,7 @@ Definition round64 (m : N) (e : Z) : option (N * Z) :=
       if P53 <=? f1 then pick (q1 + 1)%Z
       else if (f1 <? P52) && (MIN_Q <? q1)%Z then pick (q1 - 1)%Z
       else (q1, (f1, c1)) in
-  let up := match c with Gt => true | Eq => N.odd fl | Lt => false end in
-  let mant := if up then fl + 1 else fl in
+  let mant := if round_up fl c then fl + 1 else fl in
   let '(mant, q) := if mant =? P53 then (P52, (q + 1)%Z) else (mant, q) in
   if (MAX_Q <? q)%Z then None else Some (mant, q).
 
